@@ -49,12 +49,47 @@ CHECKS.update({
    text="Server direction: bodies of boundary lengths (up to 65536) under random keys are fed to the real server, the handler-received body must equal the TLA+ de-obfuscation and the raw reply bytes must equal clear XOR Pad; client direction: Client.Send over loopback TCP against a raw peer, the octets on the wire and the packet returned for scripted reply octets are recomputed by TLC. Secrets are handed over as adjacent sub-slices of one buffer.",
    note="Trusted: TLC, MD5.tla (validated against RFC 1321 A.5 and the captured vector of crypt_test.go each run). The harness uses Go crypto/md5 only to construct inputs. Keys/ids/lengths are seeded samples with boundary bias."),
 })
+REF_NOTE = ("Trusted: TLC, the harness fakes and observers (wrapping handlers/response, capturing logger and sink), the generator's pairing of "
+            "pattern text with its AST. The abstract configuration in the trace is the one rendered into the real ServerConfig. Histories, "
+            "configurations and field contents are seeded samples (plus all interleavings of small script sets for C09); verdicts come only from the real server.")
+REF_TECH = "real reference server (loader, prefix provider, Start/ASCII/PAP, bcrypt, stringy, local accounter) driven over scripted connections; TLC validates every trace against Trace_Ref.tla: model layer Handlers.tla (expected reply of every request), observation layer "
+CHECKS.update({
+ "C09": dict(engine="ref", design_ref="5/C09", category="model_checking",
+   technique=REF_TECH + "compares each session's replies in the interleaved run with a real isolated re-run of the same session (raw octets), and with the per-session Handlers model",
+   text="Session scripts (ASCII logins stopped at every stage, PAP, aborts, authorization, accounting) are interleaved on one connection (all interleavings of small script sets, seeded samples beyond), on two concurrent connections using the same session ids (including ids differing only in the upper half), and on a connection opened after another closed mid-login; every session is then re-run alone on a fresh connection of the real server and TLC requires identical reply octets; the model layer requires each reply to equal Handlers!Handle applied to that session's own history.",
+   note=REF_NOTE + " True overlap of two handler executions (a handler blocked while another runs) is exercised by the C15 race harness, not here."),
+ "C10": dict(engine="ref", design_ref="5/C10", category="model_checking",
+   technique=REF_TECH + "evaluates MayPass (transcript-based statement of the property, independent of the handler structure): PASS => MayPass, and MayPass => PASS for unambiguous well-formed logins",
+   text="Configurations with every authenticator arrangement (own, inherited from the first group that has one while later groups differ, none, unbuildable, unknown type, other scope with other credential) and login histories (user in START or CONTINUE, PAP/ASCII, every action/type/service/minor combination, abort at each step, CONTINUE to fresh or finished sessions, START mid-exchange, right/wrong/other's/empty/truncated passwords) run on the real server; TLC tracks what the server asked for per session and checks PASS exactly when the session named a user of the scope whose effective bcrypt credential matches the password supplied at the password step.",
+   note=REF_NOTE + " Requests whose body parses under two request layouts are left to the ambiguity rule (divergence only)."),
+ "C11": dict(engine="ref", design_ref="5/C11", category="model_checking",
+   technique=REF_TECH + "evaluates Authz.tla (first applying rule, user before group rules, default deny) with whole-string regular-expression matching on ASTs (Regex.tla); session authorization compared for equality with the oracle's argument list and add/replace status",
+   text="Policies (permit/deny rules with generated regular expressions: alternations, partial anchors, escaped metacharacters, lazy quantifiers, invalid patterns, wildcards, user/group layering, shadowing deny rules; services with match conditions, optional values, scopes) and requests derived from the policy itself (argument strings sampled from the rule's own pattern, then perturbed) run through the real AuthorizeRequest/stringy path; TLC reports a grant that the first applying rule does not permit, grants for unknown users or undecodable requests, and session replies that differ from the configured values of the satisfied services.",
+   note=REF_NOTE + " Soundness only for command authorization (a refusal where the oracle would permit is a divergence), as the property states."),
+ "C12": dict(engine="ref", design_ref="5/C12", category="model_checking",
+   technique=REF_TECH + "requires exactly one sink record between the request and a SUCCESS reply whose JSON decoding equals the request fields decoded by Wire.tla, and ERROR for the requests the property lists",
+   text="Accounting requests over every flag combination, printable/non-printable field contents (%, format verbs, quotes, backslashes, control characters, HTML metacharacters), 0..255 arguments including empty ones, repeated records per session, known/unknown users with and without accounter; the capturing sink formats exactly like log.Logger and records the JSON decoding of each line; TLC compares it with Dec(AcctRequest, body).",
+   note=REF_NOTE),
+ "C14": dict(engine="ref", design_ref="5/C14", category="exploration",
+   technique="state-directed exploration: Handlers.tla/Trace_Ref.tla drive and explain every handler state x packet class x configuration variant on the real reference server; panics are sensed by recovering wrappers and by the exit status of the harness process",
+   text="Every handler state reachable in the model (entry, waiting for user name, waiting for password, each AAA entry) is entered on the real server under configurations with missing/odd authenticator options, and hit with well-formed, out-of-place, truncated, junk and non-ASCII bodies; a panic inside a handler is recorded and re-raised, a panic elsewhere kills the harness process: both are violations with the last scenario as replay.",
+   note=REF_NOTE + " Crash-freedom is sensed, not proven; accept-loop faults are exercised by the Lifecycle scenarios (C17)."),
+ "C18": dict(engine="ref", design_ref="5/C18", category="model_checking",
+   technique=REF_TECH + "decides from the session transcript which request carries a password (Handlers!PwOfReq) and rejects any logger call (formatted message, structured record minus obscured keys, fields selected for retention) made while that request is handled that shows it; shared secrets may never be shown",
+   text="The capturing logger implements every logger interface of the repository and reports, per call, which candidate tokens (all user-message / data values of the scenario, all shared secrets) it shows; TLC, knowing from the replies which request answers the password prompt (or is a PAP START), flags a call that shows that request's password, on success, failure, abort, error and unrecognised-packet paths, with ASCII and non-ASCII passwords.",
+   note=REF_NOTE),
+})
+CHECKS["C07"]["engine"] = "server+ref"
+CHECKS["C07"]["technique"] = CHECKS["C07"]["technique"] + "; reference-server part: " + REF_TECH + "counts handler invocations and written packets per request for every handler path and configuration"
+CHECKS["C07"]["text"] = CHECKS["C07"]["text"] + " Reference level: the same count on the real reference server for every AAA path (well-formed, malformed, non-ASCII, out-of-place requests; users with and without authenticator/accounter/groups), with Handlers.tla predicting the single reply."
 CHECKS["C05"] = dict(engine="framing", design_ref="5/C05", category="model_checking",
    technique="TLC explores ALL segmentations of all small streams on the implementation-shaped reader of Framing.tla against the segmentation-free function FramingFn!Parse; byte streams with seeded chunkings replayed on the real server and judged by TLC (Trace_Framing); client direction over TCP (Trace_Client)",
    text="Parse(stream) defines what must be delivered from a byte stream independently of segmentation; MC_Framing shows the chunk-fed reader state machine (read-ahead buffer, two ReadFull steps, length test) equals it for every segmentation of every small stream, refuses oversize headers in the step that completes the header and never delivers a short packet. The real server is fed 1..6 packets (bodies 0..65536) cut into one-octet, boundary +-1, 107-octet and random chunks, with truncation, EOF, fired deadline and oversize endings; TLC compares the packets the handler received with Parse(stream).",
    note="Trusted: TLC, the scripted net.Conn (returns exactly the scripted chunk per Read). Chunkings and body lengths are seeded samples; exhaustive only in the scaled model.")
 
 ENGINES = [
+ {"name": "ref", "path": "lib/ref_family.py, lib/refgen.py, lib/combo.py + spec/Handlers.tla, Authz.tla, Regex.tla, Admission.tla, Msgs.tla, Trace_Ref.tla + harness/ref.go, caplog.go",
+  "serves_properties": ["C07", "C09", "C10", "C11", "C12", "C14", "C18"], "kind_free_text": "reference server replay + TLC trace validation with model and oracle layers"},
  {"name": "framing", "path": "lib/framing_family.py + spec/Framing.tla, FramingFn.tla, MC_Framing.tla, Trace_Framing.tla + harness/chaos.go (stream mode)",
   "serves_properties": ["C05"], "kind_free_text": "all-segmentations model check + stream replay"},
  {"name": "wire", "path": "lib/wire_family.py + spec/Wire.tla, MC_Wire.tla, Trace_Wire.tla + harness/codec.go",
